@@ -52,11 +52,11 @@ package dns
 //@   loop 1 invariant 0 <= keytag && keytag == ktsum(wire, rangeindex + 1) && keytag <= 65535 * (rangeindex + 1) && rangeindex + 1 <= len(wire)
 
 // ---- signature validity period (RFC 4034 section 3.1.5, RFC 1982 serial arithmetic) ------------------------------
-// RFC 1982 with SERIAL_BITS 32: inception and expiration are serial numbers, so "inception <= t <= expiration"
-// means both distances, taken modulo 2^32, are less than 2^31 (68 years) - whatever 2^32-second era t lies in
-//@ spec smod(x int) int = x % 4294967296
+// (read as the property words it: t within 68 years of both 32-bit times taken as they stand.  A reading in full
+// RFC 1982 serial arithmetic - distances modulo 2^32 - was tried and dropped: it contradicts the existing
+// TestSignature, which expects 1980..2100 to contain today although 2100 is more than 68 years away, so neither
+// the code nor the suite implements it; see DESIGN 5.1)
 //@ func (*RRSIG).ValidityPeriod [C17]
-//@   ensures serial: !timezero(t.wall, t.ext) ==> ret0 == (smod(unixsec(t.wall, t.ext) - rr.Inception) < 2147483648 && smod(rr.Expiration - unixsec(t.wall, t.ext)) < 2147483648)
 //@   ensures window: !timezero(t.wall, t.ext) && 0 - 2147483648 < rr.Inception - unixsec(t.wall, t.ext) && rr.Inception - unixsec(t.wall, t.ext) < 2147483648 && 0 - 2147483648 < rr.Expiration - unixsec(t.wall, t.ext) && rr.Expiration - unixsec(t.wall, t.ext) < 2147483648 ==> ret0 == (rr.Inception <= unixsec(t.wall, t.ext) && unixsec(t.wall, t.ext) <= rr.Expiration)
 //@   pure
 
